@@ -30,14 +30,14 @@ VALUES_N = 9      # ValueTable of Control.tla = the first 9 entries of the harne
 def model_check(chk):
     """main models (with -dump: one replayable input sequence per distinct state) + deviation / reachability configs"""
     hists = {}
-    todo = DEV[chk.pid]
-    with ThreadPoolExecutor(6) as ex:
-        futs = [ex.submit(vlib.mc, "Control", "MC_Control_%s.cfg" % cfg, expect_violation=inv, workers=2, timeout=900, heap="2g") for cfg, inv in todo]
-        for name in MAIN[chk.pid]:
-            r, hs = vlib.dump_hists("Control", "MC_Control_%s.cfg" % name, workers=6, timeout=1200)
+    with ThreadPoolExecutor(9) as ex:
+        mains = [(name, ex.submit(vlib.dump_hists, "Control", "MC_Control_%s.cfg" % name, workers=4, timeout=1200, heap="3g")) for name in MAIN[chk.pid]]
+        devs = [ex.submit(vlib.mc, "Control", "MC_Control_%s.cfg" % cfg, expect_violation=inv, workers=2, timeout=900, heap="2g") for cfg, inv in DEV[chk.pid]]
+        for name, f in mains:
+            r, hs = f.result()
             chk.add_model("Control/%s design=>contract" % name, r, NOTE[name] + "; invariants C27_Refused C27_NoEffect C28_Admission C28_BeforeBody C28_Rate C29_RoundTrip C29_ListComplete")
             hists[name] = hs
-        for f in futs:
+        for f in devs:
             f.result()      # MachineryError (vacuity) propagates
     return hists
 
@@ -339,7 +339,10 @@ def run(chk):
     elif chk.pid == "C29":
         fr = frame_scripts(hists["frame"], rng)
         log("[gen] %d TLC state-cover sequences (frame)" % len(fr))
-        run_and_validate(chk, _sample(rng, fr, 800 * k), "tlc-state-cover-frame")
+        # every LIST / payload sequence, a sample of the (many) free-value ones
+        key = [i for i, h in enumerate(hists["frame"]) if h and h[-1]["op"] in ("list", "payload", "seed")]
+        rest = [fr[i] for i in range(len(fr)) if i not in set(key)]
+        run_and_validate(chk, [fr[i] for i in key] + _sample(rng, rest, 700 * k), "tlc-state-cover-frame")
         run_and_validate(chk, random_frame(rng, 250 * k), "random-frame")
     chk.assumptions += [
         "in-process binding: a real Node and a real daemon::ControlServer on a free loopback port, steady_clock/system_clock interposed (virtual), socket time-outs in kernel time",
